@@ -300,6 +300,8 @@ func (Sim) Run(raw json.RawMessage, prop string, keep bool) (res simfw.Result) {
 		var panicked any
 		func() {
 			defer func() { panicked = recover() }()
+			zzsimrt.ResetMapOrder(s.MapSeed)
+			defer zzsimrt.ResetMapOrder(0)
 			mwh.ServeHTTP(client.Writer(), req)
 		}()
 		client.Finalise()
